@@ -25,7 +25,8 @@ def setup(ctx):
         "cases = (backend in {stdlib, pyopenssl}) x body length (0,1,2, 2^14+-2, 2*2^14+-2, 2^16+-2, 65536+-2 "
         "high-water, 256 KiB, 1 MiB+-1, 8 MiB, random) x body type (bytes position counters / str with multi-byte "
         "chars straddling record boundaries) x source (spy handler, real static file) x level (L2 in-process TLS "
-        "sandwich with ciphertext segmentations; L3 live sockets with fast/slow/bursty/delayed readers). "
+        "sandwich with ciphertext segmentations, and with a bounded pipe (64 KiB) towards readers that stall 0.5-29 "
+        "virtual seconds; L3 live sockets with fast/slow/bursty/delayed readers). "
         "distinct = (level, backend, length bucket, type, source, reader); all are non-trivial except length 0."
     )
     ctx.assumptions = [
@@ -34,6 +35,7 @@ def setup(ctx):
     ]
     ctx.require("monitor", "streams_compared", 40)
     ctx.require("monitor", "l3_streams_compared", 8)
+    ctx.require("monitor", "stalled_reader_streams", 10)
     ctx.require("backend", "pyopenssl", 10)
     ctx.require("backend", "stdlib", 10)
 
@@ -242,7 +244,71 @@ def run_l3(ctx):
         shutil.rmtree(base, ignore_errors=True)
 
 
+def run_l2_stalled(ctx):
+    """Readers that stall (virtual seconds) while the body is larger than what the pipe holds.
+    The server side is the wiring start_server() really passes to loop.create_server() (factory,
+    ssl context and ssl_* keyword arguments are captured), serving real static files."""
+    import contextlib
+    import io
+
+    from nauyaca.server.config import ServerConfig
+
+    from vf import quiet_logs, tlsbench
+    from vf.sim import capture_factory
+    from vf.vloop import close_loop, new_loop
+
+    rng = ctx.rng("stalled")
+    base = tempfile.mkdtemp(prefix="vf-c06s-")
+    try:
+        root = os.path.join(base, "root")
+        os.makedirs(root)
+        files = {}
+        for n in (200_000, 1 << 20) if ctx.quick() else (70_000, 200_000, 1 << 20, 3 << 20):
+            text = text_body(n, rng)
+            with open(os.path.join(root, f"f{n}.gmi"), "w", encoding="utf-8", newline="") as f:
+                f.write(text)
+            files[f"f{n}.gmi"] = text.encode("utf-8")
+        k = 0
+        for backend in ("stdlib", "pyopenssl"):
+            with contextlib.redirect_stdout(io.StringIO()):
+                cap = capture_factory(dict(log_level="CRITICAL", enable_rate_limiting=False),
+                                      ServerConfig(host="127.0.0.1", port=1965, document_root=root, require_client_cert=(backend == "pyopenssl")))
+            quiet_logs()
+            for name, content in files.items():
+                for stall in (0.5, 4.0, 8.0, 20.0, 29.0):
+                    for pattern in ("stall-then-read", "read-some-stall-read"):
+                        k += 1
+                        if not ctx.mine(k):
+                            continue
+                        loop = new_loop()
+                        try:
+                            bench = tlsbench.Sandwich(loop, None, capacity=65536, captured=cap)
+                            if bench.backend != backend:
+                                ctx.inconclusive_because(f"start_server chose backend {bench.backend}, expected {backend}")
+                                continue
+                            if not bench.handshake():
+                                ctx.inconclusive_because(f"L2 handshake failed: {bench.error}")
+                                continue
+                            bench.client_send(f"gemini://localhost/{name}\r\n".encode())
+                            if pattern == "read-some-stall-read":
+                                bench.drain()
+                            loop.advance(stall)
+                            bench.finish()
+                            expected = b"20 text/gemini\r\n" + content
+                            case = {"backend": backend, "len": len(content), "btype": "str", "source": "static-via-start_server", "reader": f"{pattern}:{stall}s", "pipe": 65536}
+                            compare(ctx, case, expected, bytes(bench.client_plain), bench.client_eof, "L2")
+                            ctx.count("monitor", "stalled_reader_streams")
+                            if bench.tcp.discarded:
+                                ctx.anomaly(f"unsent bytes discarded by forced close:{backend}")
+                            ctx.case(("L2-stalled", backend, bucket(len(content)), pattern, stall), True, sample={"level": "L2", **case})
+                        finally:
+                            close_loop(loop)
+    finally:
+        shutil.rmtree(base, ignore_errors=True)
+
+
 def run(ctx):
     run_l2(ctx)
+    run_l2_stalled(ctx)
     if ctx.shard in (0, 1) or ctx.nshards == 1:
         run_l3(ctx)
